@@ -209,7 +209,10 @@ def consumer_gs1(rep):
                     # the element has its own validator: take a corpus number of that format
                     mod = __import__(gs1._ai_validators[ai], fromlist=['x'])
                     from .. import corpus
-                    cands = [c for c in corpus.valid_numbers(mod.__name__, 40) if len(mod.compact(c)) <= ml and mod.compact(c) == c]
+                    fixed = '..' not in fmt
+                    cands = [c for c in corpus.valid_numbers(mod.__name__, 40) if mod.compact(c) == c and (len(c) == ml if fixed else len(c) <= ml)]
+                    if not cands and fixed:
+                        cands = [c.zfill(ml) for c in corpus.valid_numbers(mod.__name__, 40) if mod.compact(c) == c and len(c) <= ml and mod.is_valid(c.zfill(ml))]
                     v = cands[0] if cands else v
                 enc = gs1.encode({ai: v})
                 dec = gs1.info(enc)
